@@ -11,7 +11,7 @@ RES = {1: 'sat', -1: 'unsat', 0: 'unknown', 2: 'error', 99: 'unfinished'}
 
 def api_task(rng, prof, big=0.5, clausal=0.5, ncmds=(4, 14)):
     """A single-query instance loadable through the API loader of osim (no let / named / define-fun / push)."""
-    h = hist.gen_history(rng, prof, clausal=clausal, max_push=0, ncmds=ncmds, unsat_bias=0.3, final_check=False, p_check=0.0, big=big, max_depth=2, allow_let=False, bool_args=False)
+    h = hist.gen_history(rng, prof, clausal=clausal, max_push=0, ncmds=ncmds, unsat_bias=0.3, final_check=False, p_check=0.0, big=big, max_depth=2, allow_let=False, bool_args=False, subst=0.3)
     cmds = [d['text'] for d in h['decls']] + [c['text'] for c in h['commands'] if c['k'] == 'assert']
     return {'kind': 'solve', 'logic': h['logic'], 'options': [], 'knobs': {}, 'commands': cmds, 'decls': h['decls'], 'refs': [c['ref'] for c in h['commands'] if c['k'] == 'assert']}
 
